@@ -839,7 +839,50 @@ func Shapes(full bool) []*Node {
 			out = append(out, Struct(MapOf(str8Node(), in, 1, 0, 0)))
 		}
 	}
+	if full {
+		out = append(out, DeepShapes()...)
+	}
 	return out
+}
+
+// DeepShapes nests every non-embedded, non-optional field kind three struct levels deep through each container kind
+// (plain struct, optional pointer, slice element), and mixes the containers.
+func DeepShapes() []*Node {
+	kinds := FieldKinds()
+	u8 := byName(kinds, "uint8")
+	var out []*Node
+	for _, k := range kinds {
+		if k.Embedded || k.Optional {
+			continue
+		}
+		in := Struct(k, u8)
+		out = append(out,
+			Struct(Struct(in, u8), k),
+			Struct(Opt(PtrTo(Struct(Opt(PtrTo(in)), u8))), u8),
+			Struct(SliceOf(Struct(SliceOf(in, 1, 0, 2), u8), 1, 0, 2)),
+			Struct(Opt(PtrTo(Struct(SliceOf(in, 2, 0, 2)))), SliceOf(Struct(Opt(PtrTo(in))), 1, 0, 2)),
+		)
+	}
+	return out
+}
+
+// TripleCount is the number of three-field shapes (all ordered triples of field kinds).
+func TripleCount() int { n := len(FieldKinds()); return n * n * n }
+
+// Triple builds the i-th three-field shape from the catalogue kinds (nil when it is not legal Go: two embedded fields).
+func Triple(kinds []*Node, i int) *Node {
+	n := len(kinds)
+	a, b, c := kinds[i%n], kinds[(i/n)%n], kinds[i/(n*n)]
+	e := 0
+	for _, k := range []*Node{a, b, c} {
+		if k.Embedded {
+			e++
+		}
+	}
+	if e > 1 {
+		return nil
+	}
+	return Struct(a, b, c)
 }
 
 // RoundTrip is a helper used by several checks: encode, decode into a fresh value.
